@@ -225,6 +225,27 @@ func hexes(l [][]byte) []string {
 
 // enterprise draws an IANA enterprise number: any 32-bit value, and the ones that are actually seen on the wire
 // (vendor-specific formats hang off an exact number).
+// e32 / e16 / e8: a scalar of the given width; one draw in four is a value at the edge of the range (0, 1, the
+// largest, the largest but one, the sign bit)
+func e32(r *rand.Rand) uint32 {
+	if r.IntN(4) == 0 {
+		return []uint32{0, 0, 1, 0xffffffff, 0xfffffffe, 0x80000000, 0x7fffffff}[r.IntN(7)]
+	}
+	return r.Uint32()
+}
+func e16(r *rand.Rand) uint16 {
+	if r.IntN(4) == 0 {
+		return []uint16{0, 0, 1, 0xffff, 0xfffe, 0x8000, 0x7fff, 0x00ff, 0x0100}[r.IntN(9)]
+	}
+	return uint16(r.UintN(65536))
+}
+func e8(r *rand.Rand) uint8 {
+	if r.IntN(4) == 0 {
+		return []uint8{0, 0, 1, 0xff, 0xfe, 0x80, 0x7f}[r.IntN(7)]
+	}
+	return uint8(r.UintN(256))
+}
+
 func (g *G) enterprise() uint32 {
 	if g.R.IntN(2) == 0 {
 		return []uint32{9, 4491, 311, 2636, 30065, 1271, 42623, 33049, 25506, 3561, 2011, 0, 0xffffffff, 1, 4413, 6321}[g.R.IntN(16)]
@@ -253,13 +274,13 @@ func (g *G) hwAddr(maxLen int) (uint16, []byte) {
 	case 1:
 		return uint16(g.R.UintN(40)), g.bytes(g.boundLen(maxLen))
 	}
-	return uint16(g.R.UintN(65536)), g.bytes(g.boundLen(maxLen))
+	return e16(g.R), g.bytes(g.boundLen(maxLen))
 }
 
 func (g *G) DUID() (dhcpv6.DUID, *tree.Node) {
 	switch g.R.IntN(5) {
 	case 0:
-		t := g.R.Uint32()
+		t := e32(g.R) // 0: a client without a clock
 		hw, ll := g.hwAddr(122)
 		return &dhcpv6.DUIDLLT{HWType: iana.HWType(hw), Time: t, LinkLayerAddr: ll}, tree.N("duid-llt").U("hw", uint64(hw)).U("time", uint64(t)).B("ll", ll)
 	case 1:
@@ -273,7 +294,7 @@ func (g *G) DUID() (dhcpv6.DUID, *tree.Node) {
 		copy(u[:], g.bytes(16))
 		return &dhcpv6.DUIDUUID{UUID: u}, tree.N("duid-uuid").B("uuid", u[:])
 	}
-	t := uint16(g.R.UintN(65536))
+	t := e16(g.R)
 	if t >= 1 && t <= 4 {
 		t += 4
 	}
@@ -502,7 +523,7 @@ func (g *G) Option(code int, depth int) (dhcpv6.Option, *tree.Node) {
 		en, id := g.enterprise(), g.bytes(g.smallLen())
 		return &dhcpv6.OptRemoteID{EnterpriseNumber: en, RemoteID: id}, tree.N("remoteid").U("en", uint64(en)).B("id", id)
 	case 39:
-		fl := uint8(R.UintN(256))
+		fl := e8(R)
 		ns := g.names(1)[:1]
 		if R.IntN(5) == 0 {
 			ns = g.names(1)
@@ -563,7 +584,7 @@ func (g *G) Option(code int, depth int) (dhcpv6.Option, *tree.Node) {
 		}
 		return dhcpv6.OptClientArchType(as...), tree.N("archtype").L("archs", l)
 	case 62:
-		a, b, c := uint8(R.UintN(256)), uint8(R.UintN(256)), uint8(R.UintN(256))
+		a, b, c := e8(R), e8(R), e8(R)
 		return &dhcpv6.OptNetworkInterfaceID{Typ: dhcpv6.NetworkInterfaceType(a), Major: b, Minor: c}, tree.N("nii").U("type", uint64(a)).U("major", uint64(b)).U("minor", uint64(c))
 	case 79:
 		hw, ll := g.hwAddr(300)
@@ -593,7 +614,7 @@ func (g *G) Option(code int, depth int) (dhcpv6.Option, *tree.Node) {
 		if R.IntN(8) == 0 { // unset addresses are written as zeros
 			ip4, ip6 = nil, nil
 		}
-		ea := uint8(R.UintN(256))
+		ea := e8(R)
 		w := R.IntN(2) == 0
 		o := &dhcpv6.Opt4RDMapRule{Prefix4: net.IPNet{IP: ip4, Mask: net.CIDRMask(p4l, 32)}, Prefix6: net.IPNet{IP: ip6, Mask: net.CIDRMask(p6l, 128)}, EABitsLength: ea, WKPAuthorized: w}
 		wv := uint64(0)
@@ -602,19 +623,19 @@ func (g *G) Option(code int, depth int) (dhcpv6.Option, *tree.Node) {
 		}
 		return o, tree.N("4rdmap").U("p4len", uint64(p4l)).U("p6len", uint64(p6l)).U("ea", uint64(ea)).U("wkp", wv).B("p4", mask4(ip4, p4l)).B("p6", mask16(ip6, p6l))
 	case 99:
-		o := &dhcpv6.Opt4RDNonMapRule{HubAndSpoke: R.IntN(2) == 0, DomainPMTU: uint16(R.UintN(65536))}
+		o := &dhcpv6.Opt4RDNonMapRule{HubAndSpoke: R.IntN(2) == 0, DomainPMTU: e16(R)}
 		hs, tp, tc := uint64(0), uint64(0), uint64(0)
 		if o.HubAndSpoke {
 			hs = 1
 		}
 		if R.IntN(2) == 0 {
-			v := uint8(R.UintN(256))
+			v := e8(R)
 			o.TrafficClass = &v
 			tp, tc = 1, uint64(v)
 		}
 		return o, tree.N("4rdnonmap").U("hs", hs).U("tcp", tp).U("tc", tc).U("pmtu", uint64(o.DomainPMTU))
 	case 135:
-		p := uint16(R.UintN(65536))
+		p := e16(R)
 		return dhcpv6.OptRelayPort(p), tree.N("relayport").U("port", uint64(p))
 	}
 	// unknown code with arbitrary payload
@@ -665,7 +686,7 @@ func (g *G) Chain(relays int, depth int) (dhcpv6.DHCPv6, *tree.Node) {
 		return g.Message(20, depth)
 	}
 	inner, it := g.Chain(relays-1, depth+1)
-	r := &dhcpv6.RelayMessage{MessageType: dhcpv6.MessageType(12 + g.R.UintN(2)), HopCount: uint8(g.R.UintN(256))}
+	r := &dhcpv6.RelayMessage{MessageType: dhcpv6.MessageType(12 + g.R.UintN(2)), HopCount: e8(g.R)}
 	if g.R.IntN(2) == 0 {
 		r.HopCount = uint8(relays - 1)
 	}
